@@ -3,17 +3,36 @@
 Post-condition monitor on FreeVibration.evaluate / extract: K and M are re-assembled from deep copies of the items
 (sum of multiplier * matrix, sum of mass), the free unknowns are recomputed with the numbering model of C08, and every
 returned pair must satisfy K v = lambda M v there.  The workload adds rigid-mode counts and rigid-motion invariance.
+
+Everything the reference is built from is taken *before* the call (matrices, item copies with their densities, the boundary
+dictionary with its masks and the prescribed unknowns); the mass matrix is judged against references that do not use the
+regions' quadrature (documented default rules re-built from numpy's Gauss-Legendre points and own Jacobians, closed forms for
+the simplices); completeness of the spectrum is judged with a dense solve, for singular mass blocks (mixed containers,
+under-integrated simplex mass matrices under point supports) through the symmetric inverse problem.
 """
 import copy
+import itertools
+import math
 
 import numpy as np
 
-from .. import attach, problems
+from .. import attach, gen, problems
 from ..util import maxabs, random_rotation, rng_for
 from .C08 import Model
 
 
-def reassemble(items, x):
+def embed(A, n):
+    """The item's matrix in the numbering of the global container: an item on a smaller container (a displacement-only body
+    next to a u/p/J body) owns the leading unknowns, the other rows and columns are zero.  Built from the triplets, not with
+    the in-place ``resize`` the library uses."""
+    import scipy.sparse as sp
+    A = sp.coo_matrix(A)
+    if A.shape[0] > n or A.shape[1] > n:
+        raise ValueError("item matrix larger than the global system")
+    return sp.csr_matrix((A.data, (A.row, A.col)), shape=(n, n))
+
+
+def reassemble(items, x, copies=False):
     n = int(np.sum(x.fieldsizes))
     import scipy.sparse as sp
     K = sp.csr_matrix((n, n))
@@ -25,15 +44,9 @@ def reassemble(items, x):
         Mi = it.assemble.mass()
         if it.assemble.multiplier is not None:
             Ki = Ki * it.assemble.multiplier
-        Ki = sp.csr_matrix(Ki)
-        Mi = sp.csr_matrix(Mi)
-        if Ki.shape != (n, n):
-            Ki.resize(n, n)
-        if Mi.shape != (n, n):
-            Mi.resize(n, n)
-        K = K + Ki
-        M = M + Mi
-    return K, M
+        K = K + embed(Ki, n)
+        M = M + embed(Mi, n)
+    return (K, M, its) if copies else (K, M)
 
 
 def own_mass(items, x):
@@ -59,29 +72,174 @@ def own_mass(items, x):
     return M
 
 
+# points per axis of the documented default rule of the tensor-product templates (``quadrature=GaussLegendre(order=n)`` in the
+# constructor signature is the (n + 1)-point Gauss-Legendre rule per axis, which is unique)
+GAUSS_POINTS = {"RegionQuad": 2, "RegionQuadraticQuad": 3, "RegionBiQuadraticQuad": 3, "RegionHexahedron": 2, "RegionQuadraticHexahedron": 3,
+                "RegionTriQuadraticHexahedron": 3}
+# int h_a dV / V of the straight-sided quadratic simplices (vertices first, then the mid-edge nodes of the listed edges)
+SIMPLEX_LUMPED = {"RegionQuadraticTriangle": ([0.0] * 3 + [1 / 3] * 3, [(0, 1), (1, 2), (2, 0)]),
+                  "RegionQuadraticTetra": ([-1 / 20] * 4 + [1 / 5] * 6, [(0, 1), (1, 2), (2, 0), (0, 3), (1, 3), (2, 3)])}
+
+
+def cell_mass(reg):
+    """Unit-density cell mass data that do not use the region's quadrature (``h``, ``dV``): ``(m, l, bubble)`` with
+    ``m[c, a, b]`` the cell matrices by the template's documented default rule (own Gauss-Legendre tensor rule with own
+    Jacobians; the one-point centroid rule of the linear simplices in closed form, V / (d + 1)^2) or None where the simplex
+    rule of the template is not unique, ``l[c, a] = int h_a dV`` (exact for every rule that integrates the shape functions
+    themselves: closed forms of the straight-sided simplices) and the local index of a bubble unknown (MINI).  None if the
+    region is no known template, carries another rule than its default, or has curved simplex cells."""
+    name = type(reg).__name__
+    cells = np.asarray(reg.mesh.cells)
+    X = np.asarray(reg.mesh.points, float)[cells]
+    d = X.shape[2]
+    nq = reg.dV.shape[0]
+    if name in GAUSS_POINTS or name == "RegionLagrange":
+        npt = GAUSS_POINTS.get(name) or int(round(cells.shape[1] ** (1.0 / d)))  # RegionLagrange(order): order + 1 nodes and points per axis
+        if nq != npt ** d:
+            return None
+        x1, w1 = np.polynomial.legendre.leggauss(npt)
+        m = np.zeros((len(cells), cells.shape[1], cells.shape[1]))
+        for idx in itertools.product(range(npt), repeat=d):
+            xi = x1[list(idx)]
+            h = np.asarray(reg.element.function(xi), float)
+            J = np.einsum("cai,aj->cij", X, np.asarray(reg.element.gradient(xi), float))
+            m += float(np.prod(w1[list(idx)])) * np.linalg.det(J)[:, None, None] * np.outer(h, h)[None]
+        return m, m.sum(2), None
+    nv = d + 1
+    if name in ("RegionTriangle", "RegionTetra", "RegionTriangleMINI", "RegionTetraMINI") or name in SIMPLEX_LUMPED:
+        V = np.linalg.det(X[:, 1:nv] - X[:, :1]) / math.factorial(d)
+        if name in ("RegionTriangle", "RegionTetra"):
+            if nq != 1 or cells.shape[1] != nv:
+                return None
+            m = V[:, None, None] * np.ones((1, nv, nv)) / nv ** 2
+            return m, m.sum(2), None
+        if name in SIMPLEX_LUMPED:
+            c, edges = SIMPLEX_LUMPED[name]
+            if cells.shape[1] != len(c):
+                return None
+            size = np.abs(X[:, 1:nv] - X[:, :1]).max()
+            for k, (a, b) in enumerate(edges):
+                if np.abs(X[:, nv + k] - 0.5 * (X[:, a] + X[:, b])).max() > 1e-10 * size:
+                    return None
+            return None, V[:, None] * np.array(c)[None], None
+        if cells.shape[1] != nv + 1:
+            return None
+        # MINI: the vertex functions are the linear ones (the bubble is an additional amplitude): rows of the vertices, summed
+        # over the vertex columns
+        return None, V[:, None] * np.array([1.0 / nv] * nv + [0.0])[None], nv
+    return None
+
+
+def rule_mass(items, x, density=None):
+    """Independent reference of the assembled mass matrix: ``(Mref or None, l, t, rows)``: the matrix by the documented default
+    rules where these are unique, the lumped masses ``l = M t`` for the unit translation amplitudes ``t`` (bubble unknowns 0)
+    on the judged ``rows``.  None if an item is no plain solid body on a Cartesian displacement field of a known template."""
+    import scipy.sparse as sp
+    n = int(np.sum(x.fieldsizes))
+    Mref = sp.csr_matrix((n, n))
+    full = True
+    l = np.zeros(n)
+    t = np.zeros(n)
+    rows = np.zeros(n, bool)
+    for k, it in enumerate(items):
+        f0 = it.field[0]
+        rho = getattr(it, "density", None) if density is None else density[k]
+        if type(f0).__name__ not in ("Field", "FieldPlaneStrain") or rho is None:
+            return None
+        data = cell_mass(f0.region)
+        if data is None:
+            return None
+        m, lc, bubble = data
+        cells = np.asarray(f0.region.mesh.cells)
+        d = f0.dim
+        nodes = cells if bubble is None else np.delete(cells, bubble, axis=1)
+        for i in range(d):
+            np.add.at(l, d * cells + i, float(rho) * lc)
+            t[d * nodes.ravel() + i] = 1.0
+            rows[d * nodes.ravel() + i] = True
+            if m is not None:
+                r = np.repeat(cells[:, :, None], cells.shape[1], axis=2)
+                c = np.repeat(cells[:, None, :], cells.shape[1], axis=1)
+                Mref = Mref + sp.csr_matrix(((float(rho) * m).ravel(), (d * r.ravel() + i, d * c.ravel() + i)), shape=(n, n))
+        full = full and m is not None
+    return (Mref if full else None), l, t, rows
+
+
+def judge_mass(run, M, items, x, density=None, what="the assembled mass matrix"):
+    """The clauses on a mass matrix against the references that are independent of the regions' quadrature."""
+    ref = rule_mass(items, x, density)
+    if ref is None:
+        run.skip("modal", "no independent mass reference for this field / region / rule")
+        return
+    Mref, l, t, rows = ref
+    if Mref is not None:
+        run.compare("modal", "clause=mass-matrix-documented-rule", maxabs((M - Mref).toarray()) / max(abs(Mref).max(), 1e-300), 1e-12,
+                    what + " is not rho * integral of h_a h_b over the body by the template's documented rule (own quadrature points, weights, "
+                    "Jacobians)", unit="modal:mass-independent-rule")
+    run.compare("modal", "clause=mass-row-sums", maxabs((M @ t - l)[rows]) / max(maxabs(l), 1e-300), 1e-12,
+                what + ": row sums differ from rho * integral of h_a over the body (a rule that integrates the shape functions exactly "
+                "gives these, whatever its order)", unit="modal:mass-row-sums")
+
+
+def inverse_spectrum(K, M, k):
+    """The k eigenvalues of smallest magnitude of the symmetric pencil (K, M) with a regular K and a positive semi-definite,
+    possibly singular M (mass-less pressure unknowns, under-integrated simplex mass matrices): with M = B B^T the non-zero
+    eigenvalues of K^-1 M are those of the symmetric B^T K^-1 B, lambda = 1 / mu.  None if K is (numerically) singular."""
+    s = np.linalg.svd(K, compute_uv=False)
+    if not s[-1] > 1e-10 * s[0]:
+        return None
+    wm, U = np.linalg.eigh(0.5 * (M + M.T))
+    B = U * np.sqrt(np.clip(wm, 0.0, None))
+    C = B.T @ np.linalg.solve(K, B)
+    mu = np.linalg.eigvalsh(0.5 * (C + C.T))
+    mu = mu[np.argsort(-np.abs(mu))][:k]
+    if len(mu) < k or not np.all(np.abs(mu) > 1e-12 * np.abs(mu[0])):
+        return None
+    return 1.0 / mu
+
+
 def attach_hooks(run):
     import felupe as fem
     FV = fem.FreeVibration
 
     def pre_evaluate(self, args, kwargs):
-        # reference matrices from the state *before* the call (evaluate scales the items' matrices in place)
+        # reference matrices from the state *before* the call (evaluate scales the items' matrices in place); the boundary
+        # dictionary, its masks and the prescribed unknowns are taken before the call as well: an evaluate() that drops or
+        # rewrites entries of ``self.boundaries`` must not define its own reference
         x = kwargs.get("x0", args[0] if args else None) or self.items[0].field
+        ctx = {"K": None, "dof0": None, "bounds": None}
         try:
-            return reassemble(self.items, x)
+            ctx["bounds"] = {k: (b, np.array(b.mask, copy=True)) for k, b in self.boundaries.items()}
+            ctx["dof0"] = Model(x).dof0(self.boundaries)
         except Exception:
-            return None
+            pass
+        try:
+            ctx["K"], ctx["M"], ctx["items"] = reassemble(self.items, x, copies=True)
+        except Exception:
+            pass
+        return ctx
 
     def post_evaluate(self, args, kwargs, ctx, result, exc):
         if exc is not None:
             return
         run.seen("modal")
         x = kwargs.get("x0", args[0] if args else None) or self.items[0].field
-        if ctx is None:
+        if ctx is None or ctx["K"] is None:
             run.skip("modal", "items could not be re-assembled before the call")
             return
-        K, M = ctx
+        K, M = ctx["K"], ctx["M"]
         model = Model(x)
-        dof0 = model.dof0(self.boundaries)
+        if ctx["bounds"] is not None:
+            # the dictionary the caller handed over is the caller's: same entries, same objects, same selections after the call
+            now = self.boundaries
+            same = isinstance(now, dict) and list(now.keys()) == list(ctx["bounds"].keys()) and all(
+                now[k] is b and np.array_equal(np.asarray(b.mask), m) for k, (b, m) in ctx["bounds"].items())
+            if same:
+                run.ok("modal", unit="modal:boundaries-unchanged")
+            else:
+                run.fail("modal", "clause=boundaries-unchanged", "FreeVibration.evaluate changed the boundary dictionary of the job (entries dropped, "
+                         "replaced or re-selected): the prescribed unknowns are those of the dictionary the caller passed")
+        dof0 = ctx["dof0"] if ctx["dof0"] is not None else model.dof0(self.boundaries)
         dof1 = np.setdiff1d(np.arange(model.n), dof0)
         if not np.array_equal(np.asarray(self.dof1), dof1):
             run.fail("modal", "clause=free-unknowns", "FreeVibration.dof1 differs from the complement of the prescribed unknowns")
@@ -123,31 +281,53 @@ def attach_hooks(run):
         # completeness: with the default solver the pairs are those closest to zero; for small systems with a definite mass
         # block compare with a dense generalized solve (a solver asked for another part of the spectrum would pass the residual)
         if kwargs.get("solver") is None and len(dof1) <= 600 and len(lam) >= 1:
+            import scipy.linalg as sla
+            Kd = np.asarray(K11.todense())
+            Md = np.asarray(M11.todense())
+            wi = None
             try:
-                import scipy.linalg as sla
-                Md = np.asarray(M11.todense())
                 wm = np.linalg.eigvalsh(Md)
                 # (under-integrated consistent mass matrices, e.g. tetra10 with its 4-point rule, are singular: no dense reference)
-                wd = sla.eigh(np.asarray(K11.todense()), Md, eigvals_only=True) if wm[0] > 1e-9 * wm[-1] else None
+                wd = sla.eigh(Kd, Md, eigvals_only=True) if wm[0] > 1e-9 * wm[-1] else None
             except Exception:
                 wd = None
-            if wd is None:
-                run.skip("modal", "dense reference solve not available (mass block not positive definite)")
-            else:
+            if wd is None and kwargs.get("which", "LM") == "LM" and "mode" not in kwargs:
+                # singular mass block (mass-less pressure / volume-ratio unknowns of mixed containers, under-integrated simplex
+                # mass matrices under supports that do not fix whole faces) on a regular stiffness block: the finite eigenvalues
+                # from the symmetric inverse problem B^T K^-1 B with M = B B^T
+                try:
+                    wi = inverse_spectrum(Kd, Md, len(lam))
+                except Exception:
+                    wi = None
+            if wd is not None:
                 wall = maxabs(wd)
                 wd = wd[np.argsort(np.abs(wd))][: len(lam)]
                 # (zero-frequency modes come out as round-off of either sign: differences are measured against the spectrum's scale)
                 run.compare("modal", "clause=spectrum-closest-to-zero", maxabs(np.sort(wd) - np.sort(lam)) / max(maxabs(wd), 1e-9 * wall, 1e-300), 1e-6,
                             "the returned eigenvalues are not the ones of smallest magnitude of the constrained pencil (dense reference)",
                             unit="modal:spectrum")
+            elif wi is not None:
+                run.units["modal:spectrum:singular-mass"] += 1
+                run.compare("modal", "clause=spectrum-closest-to-zero", maxabs(np.sort(wi) - np.sort(lam)) / max(maxabs(wi), 1e-300), 1e-6,
+                            "the returned eigenvalues are not the ones of smallest magnitude of the constrained pencil (dense reference from "
+                            "the inverse problem, singular mass block)", unit="modal:spectrum")
+            else:
+                run.skip("modal", "dense reference solve not available (mass block not positive definite)")
         # the reference mass matrix itself against its definition rho * int h_a h_b dV on plain displacement fields
+        # (the items as they were before the call: their densities and regions are not read back after it)
         try:
-            own = own_mass(self.items, x)
+            own = own_mass(ctx["items"], x)
         except Exception:
             own = None
         if own is not None:
             run.compare("modal", "clause=mass-matrix-definition", maxabs((M - own).toarray() if hasattr(M - own, "toarray") else (M - own)) / max(abs(own).max(), 1e-300), 1e-12,
                         "the assembled mass matrix is not rho * integral of h_a h_b over the body", unit="modal:mass-definition")
+        # ... and against references that do not use the regions' own quadrature (``own_mass`` integrates with the region's
+        # h and dV: it judges the scatter; a wrong rule, a dropped quadrature point or weights of another order are mirrored)
+        try:
+            judge_mass(run, M, ctx["items"], x)
+        except Exception:
+            run.skip("modal", "independent mass reference raised")
         self._vmon = {"K": K, "M": M, "dof0": dof0, "dof1": dof1}
 
     attach.wrap_method(FV, "evaluate", pre=pre_evaluate, post=post_evaluate)
@@ -186,9 +366,53 @@ UNIT_SYSTEMS = [lambda r: (float(10 ** r.uniform(3, 5.5)), float(10 ** r.uniform
                 lambda r: (float(10 ** r.uniform(6, 11.3)), float(10 ** r.uniform(2.7, 4)), float(10 ** r.uniform(-3, 0)))]    # SI
 
 
-def build(rng, fam, density=None, units=False):
+def split_family(fam):
+    """'quad', 'quad:planestress' (plain 2D field with the plane-stress law), 'lagrange3' / 'lagrange2x3d' (RegionLagrange)."""
+    base, _, kind = fam.partition(":")
+    return base, kind
+
+
+def family_dim(fam):
+    base, kind = split_family(fam)
+    if base.startswith("lagrange"):
+        return 3 if base.endswith("x3d") else 2
+    return gen.FAMILIES[base]["dim"]
+
+
+def lagrange_box(order, L):
+    """Two arbitrary-order Lagrange cells side by side that share the nodes of their common face (merged by coordinates in
+    units of the body)."""
     import felupe as fem
-    mesh, L = problems.box_mesh(fam, rng, n=None, lengths=rng.uniform(0.8, 3.0, 3 if fam in ("hexahedron", "hexahedron20", "hexahedron27", "tetra", "tetra10") else 2))
+    d = len(L)
+    make = fem.mesh.RectangleArbitraryOrderQuad if d == 2 else fem.mesh.CubeArbitraryOrderHexahedron
+    parts = [make(a=(i * L[0] / 2,) + (0.0,) * (d - 1), b=((i + 1) * L[0] / 2,) + tuple(L[1:]), order=order) for i in range(2)]
+    pts = np.vstack([m.points for m in parts])
+    cells = np.vstack([m.cells + i * parts[0].npoints for i, m in enumerate(parts)])
+    key = np.round(pts / float(np.max(L)) * 1e8).astype(np.int64)
+    _, first, inv = np.unique(key, axis=0, return_index=True, return_inverse=True)
+    return fem.Mesh(pts[first], np.asarray(inv).reshape(-1)[cells], cell_type=parts[0].cell_type)
+
+
+def field_of(fam, mesh):
+    """The displacement container of the family on (another copy of) its mesh."""
+    import felupe as fem
+    base, kind = split_family(fam)
+    if base.startswith("lagrange"):
+        reg = fem.RegionLagrange(mesh, order=int(base[8]), dim=mesh.dim)
+        return fem.FieldContainer([fem.Field(reg, dim=3) if mesh.dim == 3 else fem.FieldPlaneStrain(reg, dim=2)])
+    if kind == "planestress":
+        return fem.FieldContainer([fem.Field(gen.make_region(base, mesh), dim=2)])
+    return problems.field_for(base, mesh, "3d" if mesh.dim == 3 else "planestrain")
+
+
+def build(rng, fam, density=None, units=False, n=None):
+    import felupe as fem
+    base, kind = split_family(fam)
+    lengths = rng.uniform(0.8, 3.0, family_dim(fam))
+    if base.startswith("lagrange"):
+        mesh, L = lagrange_box(int(base[8]), lengths), np.array(lengths)
+    else:
+        mesh, L = problems.box_mesh(base, rng, n=n, lengths=lengths)
     d = mesh.dim
     E, nu = float(rng.uniform(1, 100)), float(rng.uniform(0.1, 0.4))
     if units:
@@ -198,11 +422,12 @@ def build(rng, fam, density=None, units=False):
         density = rho_u if density is None else density
         mesh = mesh.copy(points=mesh.points * sL)
         L = L * sL
+    field = field_of(fam, mesh)
     if d == 3:
-        field = problems.field_for(fam, mesh, "3d")
         umat = fem.LinearElastic(E=E, nu=nu)
+    elif kind == "planestress":
+        umat = fem.LinearElasticPlaneStress(E=E, nu=nu)
     else:
-        field = problems.field_for(fam, mesh, "planestrain")
         umat = fem.constitution.LinearElasticPlaneStrain(E=E, nu=nu)
     rho = float(rng.uniform(0.5, 5)) if density is None else density
     # every second body carries a stiffness multiplier (the analysis must use multiplier * matrix, as Newton does)
@@ -235,6 +460,7 @@ def case_constrained(fam, rep):
             for n in range(k):
                 job.extract(n, inplace=False)
             run.configs.add(str(("constrained", fam, bkind, k)))
+            run.units["modal:family:%s" % fam] += 1
             # the same job object evaluated again with another boundary dictionary (and number of modes): nothing of the first
             # evaluation may survive (free unknowns, pairs, shapes)
             job.boundaries = dict(b, **{"far": fem.Boundary(field[0], fx=float(L[0]))}) if bkind != 2 else {"left": fem.Boundary(field[0], fx=0.0)}
@@ -290,6 +516,95 @@ def case_items(fam, rep):
             if rep % 2:
                 run.units["modal:parallel"] += 1
             run.configs.add(str(("items", fam, len(items), rep % 2)))
+            # the lower-level API the analysis is built on, with its density argument: assemble.mass(density=r) is the mass matrix
+            # of density r whatever the body was built with (also for a body built without density), judged against the
+            # references that are independent of the region's quadrature
+            r = float(rng.uniform(0.5, 5))
+            bare = fem.SolidBody(solid.umat, field)
+            for body in [solid, bare] + items[2:]:
+                judge_mass(run, body.assemble.mass(density=r), [body], field, density=[r], what="assemble.mass(density=r) of %s" % type(body).__name__)
+                run.units["modal:mass-density-argument"] += 1
+        finally:
+            attach.detach_all()
+    return fn
+
+
+def case_sizes(rep):
+    """Items on containers of different size: a displacement-only body and a u/p/J body that share the displacement field, in
+    both orders, with the mixed container as x0 (the smaller matrices are embedded into the global system), and the x0 / n
+    keyword forms of extract (negative mode number, in place and as copy)."""
+    def fn(run):
+        import felupe as fem
+        rng = rng_for(run.seed, "C18", "sizes", rep)
+        attach_hooks(run)
+        try:
+            fam = ("hexahedron", "quad")[rep % 2]
+            mesh, L = problems.box_mesh(fam, rng, n=(4, 3, 3) if fam == "hexahedron" else (5, 4), lengths=rng.uniform(0.8, 3.0, 3 if fam == "hexahedron" else 2))
+            d = mesh.dim
+            field = fem.FieldsMixed(gen.make_region(fam, mesh), n=3, planestrain=(d == 2))
+            mixed = fem.SolidBody(fem.ThreeFieldVariation(fem.NeoHooke(mu=float(rng.uniform(0.5, 2)), bulk=float(rng.uniform(5, 50)))), field,
+                                  density=float(rng.uniform(0.5, 3)))
+            E, nu = float(rng.uniform(1, 20)), float(rng.uniform(0.1, 0.4))
+            plain = fem.SolidBody(fem.LinearElastic(E=E, nu=nu) if d == 3 else fem.constitution.LinearElasticPlaneStrain(E=E, nu=nu),
+                                  fem.FieldContainer([field[0]]), density=float(rng.uniform(0.5, 3)), multiplier=float(rng.uniform(0.3, 3)))
+            b = {"left": fem.Boundary(field[0], fx=0.0)}
+            k = int(rng.integers(3, 8))
+            spectra = []
+            for items in ([plain, mixed], [mixed, plain]):
+                job = fem.FreeVibration(items, b).evaluate(k=k, x0=field)
+                job.extract(2, x0=field, inplace=False)
+                job.extract(x0=field, n=-1, inplace=False)
+                spectra.append(np.sort(job.eigenvalues))
+            run.compare("modal.sizes", "clause=item-order-does-not-change-the-spectrum", maxabs(spectra[0] - spectra[1]) / maxabs(spectra[0]), 1e-8,
+                        "a displacement-only body and a u/p/J body on one displacement field: the spectrum depends on the order of the items",
+                        unit="modal:items-on-smaller-container", config=("sizes", fam, k))
+            job.extract(n=-1, x0=field)
+        finally:
+            attach.detach_all()
+    return fn
+
+
+def point_supports(field, L):
+    """Statically determinate supports: a pinned corner and rollers at two (3D) / one (2D) further corners."""
+    import felupe as fem
+    f = field[0]
+    if len(L) == 2:
+        return {"pin": fem.Boundary(f, fx=0.0, fy=0.0, mode="and"), "roller": fem.Boundary(f, fx=float(L[0]), fy=0.0, mode="and", skip=(1, 0))}
+    return {"pin": fem.Boundary(f, fx=0.0, fy=0.0, fz=0.0, mode="and"),
+            "roller-x": fem.Boundary(f, fx=float(L[0]), fy=0.0, fz=0.0, mode="and", skip=(1, 0, 0)),
+            "roller-y": fem.Boundary(f, fx=0.0, fy=float(L[1]), fz=0.0, mode="and", skip=(1, 1, 0))}
+
+
+DETERMINATE = {"triangle": (5, 5), "triangle6": (4, 4), "tetra": (4, 3, 3), "tetra10": (3, 3, 3), "quad": (6, 5), "hexahedron": (4, 4, 3)}
+
+
+def case_determinate(fam, rep):
+    """Point supports (pin + rollers) instead of clamped faces: the stiffness block is regular, the under-integrated mass block
+    of the simplex families is singular (the dense reference comes from the inverse problem); many requested modes on the
+    quad / hexahedron meshes (more Lanczos vectors than the eigensolver's minimum of 20); the default number of modes and
+    keywords that are forwarded to the eigensolver."""
+    def fn(run):
+        import felupe as fem
+        rng = rng_for(run.seed, "C18", "determinate", fam, rep)
+        attach_hooks(run)
+        try:
+            solid, field, mesh, L, par = build(rng, fam, units=bool(rep % 2), n=DETERMINATE[fam])
+            b = point_supports(field, L)
+            nfree = len(fem.dof.partition(field, b)[1])
+            k = int(rng.integers(10, 26)) if fam in ("quad", "hexahedron") else int(rng.integers(1, 7))
+            job = fem.FreeVibration([solid], b).evaluate(k=k)
+            job.extract(0, inplace=False)
+            job.extract(n=k - 1, inplace=False)
+            run.units["modal:point-supports"] += 1
+            if 2 * k + 1 > 20:
+                run.units["modal:lanczos-vectors>20"] += 1
+            run.configs.add(str(("determinate", fam, k)))
+            # the default number of modes (6) and keywords that evaluate() hands on to the eigensolver
+            fem.FreeVibration([solid], b).evaluate()
+            run.units["modal:default-number-of-modes"] += 1
+            k2 = int(rng.integers(2, 6))
+            fem.FreeVibration([solid], b).evaluate(k=k2, ncv=min(nfree, 2 * k2 + 16), maxiter=50 * nfree, tol=0, v0=rng.uniform(0.5, 1.5, nfree))
+            run.units["modal:eigensolver-keywords"] += 1
         finally:
             attach.detach_all()
     return fn
@@ -327,13 +642,13 @@ def case_submesh(rep):
     return fn
 
 
-def case_rigid(fam, rep):
+def case_rigid(fam, rep, n=None):
     def fn(run):
         import felupe as fem
         rng = rng_for(run.seed, "C18", "rigid", fam, rep)
         attach_hooks(run)
         try:
-            solid, field, mesh, L, (E, nu, rho) = build(rng, fam)
+            solid, field, mesh, L, (E, nu, rho) = build(rng, fam, n=n)
             d = mesh.dim
             nrig = 3 if d == 2 else 6
             k = nrig + 4
@@ -345,7 +660,7 @@ def case_rigid(fam, rep):
             # their unknowns are prescribed, the spectrum is the one of the body
             mx = mesh.copy()
             mx.update(points=np.vstack([mesh.points, mesh.points.max(0) + 0.5, mesh.points.min(0) - 0.7]))
-            fx = problems.field_for(fam, mx, "3d" if d == 3 else "planestrain")
+            fx = field_of(fam, mx)
             sx = fem.SolidBody(solid.umat, fx, density=rho, multiplier=solid.assemble.multiplier)
             jx = fem.FreeVibration([sx])
             try:
@@ -368,7 +683,7 @@ def case_rigid(fam, rep):
             Q = random_rotation(rng, d)
             t = rng.uniform(-3, 3, d)
             mesh2 = mesh.copy(points=mesh.points @ Q.T + t)
-            field2 = problems.field_for(fam, mesh2, "3d" if d == 3 else "planestrain")
+            field2 = field_of(fam, mesh2)
             solid2 = fem.SolidBody(solid.umat, field2, density=rho, multiplier=solid.assemble.multiplier)
             job2 = fem.FreeVibration([solid2]).evaluate(k=k, solver=shifted_solver(-1e-3 * scale))
             lam2 = np.sort(job2.eigenvalues)
@@ -381,9 +696,15 @@ def case_rigid(fam, rep):
     return fn
 
 
+PRESTRETCHED = ("hexahedron", "quad", "tetra")
+
+
 def case_prestretched(fam, rep):
     def fn(run):
-        """Modal analysis about a converged, pre-stretched state: the field carries non-zero values on prescribed unknowns."""
+        """Modal analysis about a converged, pre-stretched state: the field carries non-zero values on prescribed unknowns.  One
+        job object is evaluated at the undeformed state, after the Newton solve and after the density of its items was
+        doubled: nothing of the items may be kept from an earlier evaluation.  The body is a SolidBody, the condensed
+        nearly-incompressible body alone, or the condensed body as first of two items."""
         import felupe as fem
         rng = rng_for(run.seed, "C18", "prestretched", fam, rep)
         attach_hooks(run)
@@ -391,37 +712,80 @@ def case_prestretched(fam, rep):
             mesh, L = problems.box_mesh(fam, rng)
             d = mesh.dim
             field = problems.field_for(fam, mesh, "3d" if d == 3 else "planestrain")
-            solid = fem.SolidBody(fem.NeoHooke(mu=float(rng.uniform(0.5, 2)), bulk=float(rng.uniform(2, 8))), field, density=float(rng.uniform(0.5, 3)))
+            mu, bulk, rho = float(rng.uniform(0.5, 2)), float(rng.uniform(2, 8)), float(rng.uniform(0.5, 3))
+            body = (PRESTRETCHED.index(fam) + rep) % 3
+            if body == 0:
+                items = [fem.SolidBody(fem.NeoHooke(mu=mu, bulk=bulk), field, density=rho)]
+            else:
+                items = [fem.SolidBodyNearlyIncompressible(fem.NeoHooke(mu=mu), field, bulk=10 * bulk, density=rho)]
+                if body == 2:
+                    items.append(fem.SolidBody(fem.NeoHooke(mu=0.5 * mu, bulk=bulk), field, density=2 * rho))
             b, lc = fem.dof.uniaxial(field, clamped=True, move=float(rng.uniform(0.1, 0.3)) * L[0], sym=False)
-            fem.newtonrhapson(items=[solid], verbose=False, **lc)
             k = max(1, min(int(rng.integers(2, 7)), len(fem.dof.partition(field, b)[1]) - 2))  # the sparse eigensolver needs k < N
-            job = fem.FreeVibration([solid], b).evaluate(k=k)
+            job = fem.FreeVibration(items, b).evaluate(k=k)
+            fem.newtonrhapson(items=items, verbose=False, **lc)
+            job.evaluate(k=k)
+            lam1 = np.sort(job.eigenvalues)
             for n in range(k):
                 job.extract(n, inplace=False)
-            job.extract(0, inplace=True)
             run.units["modal:prestretched"] += 1
+            run.units["modal:prestretched:%s" % ("SolidBody", "SolidBodyNearlyIncompressible", "SolidBodyNearlyIncompressible+SolidBody")[body]] += 1
             run.configs.add(str(("prestretched", fam, k)))
+            # twice the density on every item: twice the mass matrix on the same stiffness, half the eigenvalues
+            for it in items:
+                it.density = 2 * it.density
+            job.evaluate(k=k)
+            run.compare("modal.history", "clause=density-doubled-between-evaluations", maxabs(2 * np.sort(job.eigenvalues) - lam1) / maxabs(lam1), 1e-9,
+                        "the same job evaluated again after the density of its items was doubled does not return half the eigenvalues",
+                        unit="modal:items-changed-between-evaluations", config=("history", fam, body))
+            job.extract(0, inplace=True)
         finally:
             attach.detach_all()
     return fn
 
 
+MIXED = ("hexahedron", "hexahedron:boundaries-on-p", "quad:plane-strain:boundaries-on-p-J", "hexahedron27")
+
+
 def case_mixed(rep):
+    """Mixed u/p/J containers (the extra fields carry no mass): hexahedra, plane strain, a quadratic displacement field;
+    boundaries on the displacement field only or on the pressure / volume-ratio fields too; the job evaluated again with
+    another dictionary.  Completeness is judged through the inverse problem (the mass block is singular by construction)."""
     def fn(run):
         import felupe as fem
         rng = rng_for(run.seed, "C18", "mixed", rep)
         attach_hooks(run)
         try:
-            mesh, L = problems.box_mesh("hexahedron", rng, n=(3, 4, 3))
-            reg = fem.RegionHexahedron(mesh)
-            field = fem.FieldsMixed(reg, n=3)
+            var = rep % 4
+            if var == 2:
+                mesh, L = problems.box_mesh("quad", rng, n=(5, 4))
+                field = fem.FieldsMixed(fem.RegionQuad(mesh), n=3, planestrain=True)
+            elif var == 3:
+                mesh, L = problems.box_mesh("hexahedron27", rng, n=(3, 3, 3))
+                field = fem.FieldsMixed(fem.RegionTriQuadraticHexahedron(mesh), n=3)
+            else:
+                mesh, L = problems.box_mesh("hexahedron", rng, n=(3, 4, 3))
+                reg = fem.RegionHexahedron(mesh)
+                field = fem.FieldsMixed(reg, n=3)
             umat = fem.ThreeFieldVariation(fem.NeoHooke(mu=float(rng.uniform(0.5, 2)), bulk=float(rng.uniform(5, 50))))
             solid = fem.SolidBody(umat, field, density=float(rng.uniform(0.5, 3)))
             b = {"left": fem.Boundary(field[0], fx=0.0)}
+            if var in (1, 2):
+                # (the meshes of the dual fields carry no coordinates: selections by mask, a third of the cells)
+                for name, f in [("p", field[1])] + ([("J", field[2])] if var == 2 else []):
+                    sel = np.zeros(f.values.shape, bool)
+                    sel[(0 if name == "p" else 1)::3] = True
+                    b[name] = fem.Boundary(f, mask=sel)
             k = max(1, min(int(rng.integers(2, 7)), len(fem.dof.partition(field, b)[1]) - 2))  # the sparse eigensolver needs k < N
             job = fem.FreeVibration([solid], b).evaluate(k=k)
             job.extract(k - 1, inplace=False)
             run.units["modal:mixed-container"] += 1
+            run.units["modal:mixed-container:%s" % MIXED[var]] += 1
+            # the same mixed job with another dictionary
+            job.boundaries = {"right": fem.Boundary(field[0], fx=float(L[0]))}
+            job.evaluate(k=k + 1)
+            job.extract(0, inplace=False)
+            run.units["modal:mixed-container:re-evaluated"] += 1
         finally:
             attach.detach_all()
     return fn
@@ -436,27 +800,51 @@ def cases(tier, seed):
     for fam in ("hexahedron", "tetra", "quad", "triangle", "quad8", "tetra10"):
         for rep in range(1 if tier == "quick" else 4):
             out.append(("rigid:%s:%d" % (fam, rep), case_rigid(fam, rep)))
-    for rep in range(1 if tier == "quick" else 4):
+    for rep in range(4 if tier == "quick" else 16):
         out.append(("mixed:%d" % rep, case_mixed(rep)))
     for fam in ("hexahedron", "quad", "tetra10"):
         for rep in range(2 if tier == "quick" else 6):
             out.append(("items:%s:%d" % (fam, rep), case_items(fam, rep)))
     for rep in range(3 if tier == "quick" else 9):
         out.append(("submesh:%d" % rep, case_submesh(rep)))
-    for fam in ("hexahedron", "quad", "tetra"):
+    for fam in PRESTRETCHED:
         for rep in range(1 if tier == "quick" else 4):
             out.append(("prestretched:%s:%d" % (fam, rep), case_prestretched(fam, rep)))
+    # further members of the quantifier: MINI templates (bubble unknowns with their own rows), arbitrary-order Lagrange regions,
+    # plane stress on a plain 2D field
+    for fam in MORE_FAMILIES:
+        for rep in range(reps if fam == "triangleMINI" else (1 if tier == "quick" else 6)):
+            out.append(("constrained:%s:%d" % (fam, rep), case_constrained(fam, rep)))
+    # rigid-mode count and invariance on the other families (the tri-quadratic / serendipity hexahedra on 2 x 2 x 2 cells)
+    for fam in ("hexahedron20", "hexahedron27", "quad9", "triangle6") + MORE_FAMILIES:
+        for rep in range(1 if tier == "quick" else 3):
+            out.append(("rigid:%s:%d" % (fam, rep), case_rigid(fam, rep, n=(3, 3, 3) if fam in ("hexahedron20", "hexahedron27") else None)))
+    for rep in range(2 if tier == "quick" else 6):
+        out.append(("sizes:%d" % rep, case_sizes(rep)))
+    for fam in DETERMINATE:
+        for rep in range((1 if fam == "tetra10" else 2) if tier == "quick" else 6):
+            out.append(("determinate:%s:%d" % (fam, rep), case_determinate(fam, rep)))
     return out
 
+
+MORE_FAMILIES = ("triangleMINI", "tetraMINI", "quad:planestress", "triangle6:planestress", "lagrange2", "lagrange3", "lagrange2x3d")
 
 SPEC = {
     "required_units": ["modal:residual", "modal:prescribed", "modal:scatter", "modal:frequency", "modal:rigid-modes:2d", "modal:rigid-modes:3d",
                        "modal:invariance", "modal:mixed-container", "modal:prestretched", "modal:orthogonal", "modal:items>=2", "modal:parallel",
-                       "modal:item:SolidBodyNearlyIncompressible", "modal:other-unit-system", "modal:unit-sweep", "modal:spectrum", "modal:mass-definition", "modal:sub-mesh-items", "modal:re-evaluated-with-other-boundaries", "modal:cell-less-points"],
-    "rule": ("linear-elastic bodies on 8 element families (3D and plane strain) with random box dimensions, elastic constants, densities, three "
-             "kinds of boundary dictionaries, 1..12 requested modes; unconstrained bodies through a solver= with a small negative shift; "
-             "mixed u/p/J container; every evaluate()/extract() is judged by the post-hooks with K and M re-assembled from item copies; a "
+                       "modal:item:SolidBodyNearlyIncompressible", "modal:other-unit-system", "modal:unit-sweep", "modal:spectrum", "modal:mass-definition", "modal:sub-mesh-items", "modal:re-evaluated-with-other-boundaries", "modal:cell-less-points",
+                       "modal:boundaries-unchanged", "modal:mass-independent-rule", "modal:mass-row-sums", "modal:spectrum:singular-mass", "modal:mass-density-argument",
+                       "modal:items-on-smaller-container", "modal:point-supports", "modal:lanczos-vectors>20", "modal:default-number-of-modes", "modal:eigensolver-keywords",
+                       "modal:items-changed-between-evaluations", "modal:prestretched:SolidBody", "modal:prestretched:SolidBodyNearlyIncompressible",
+                       "modal:prestretched:SolidBodyNearlyIncompressible+SolidBody", "modal:mixed-container:re-evaluated"]
+                      + ["modal:mixed-container:%s" % m for m in MIXED] + ["modal:family:%s" % f for f in MORE_FAMILIES],
+    "rule": ("linear-elastic bodies on 12 element families plus RegionLagrange (3D, plane strain, plane stress) with random box dimensions, "
+             "elastic constants, densities, three kinds of boundary dictionaries and statically determinate point supports, 1..25 requested modes; "
+             "unconstrained bodies through a solver= with a small negative shift; mixed u/p/J containers (hexahedra, plane strain, quadratic, "
+             "boundaries on the extra fields), items on containers of different size, one job evaluated at several states of its items; every "
+             "evaluate()/extract() is judged by the post-hooks with K and M re-assembled from item copies taken before the call; a "
              "configuration is distinct by (family, boundary kind, number of modes)"),
-    "assumptions": ["completeness of the spectrum: rigid-mode count, and a dense generalized solve for systems up to 600 free unknowns with the default solver", "the shifted solver for singular K is API the class offers (solver=)"],
+    "assumptions": ["completeness of the spectrum: rigid-mode count, and a dense generalized solve (definite mass block) or the dense inverse problem (singular mass block, regular stiffness block) for systems up to 600 free unknowns with the default solver", "the shifted solver for singular K is API the class offers (solver=)",
+                    "the mass matrix is judged against the templates' documented default rules (unique for Gauss-Legendre and the one-point simplex rules) and, for the other simplex templates, through its row sums; unconstrained bodies are not driven with the default shift sigma = 0 (ill-posed, DESIGN section 6 observation (a))"],
     "jobs": {"quick": 8, "thorough": 16},
 }
